@@ -116,20 +116,24 @@ def report(prop, mod, m, tier, seed, wall, write_evidence=True):
     for mech, vs in sorted(known_hit.items()):
         lines.append(f"KNOWN-FINDING: property={prop} {known[mech]['what']} [mechanism={mech}, {len(vs)} witness(es) this run]")
     seen = set()
-    nnew = 0
+    per_mech = {}
     for v in new:
         key = h(v["witness"])
         if key in seen:
             continue
         seen.add(key)
-        nnew += 1
-        if nnew > 12:
-            continue
+        k = per_mech.setdefault(v["mechanism"], [0])
+        k[0] += 1
+        if k[0] > 3 or len(lines) > 80:
+            continue  # at most 3 replay files per distinct mechanism: rare mechanisms are never hidden behind common ones
         path = os.path.join(REPLAY, f"{prop}-{key}.json")
         with open(path, "w") as f:
             f.write(jdump({"property": prop, **v}, indent=1))
         rel = os.path.relpath(path, ROOT)
         lines.append(f"VIOLATION property={prop} replay={rel}  # {v['mechanism']}: {v['summary'][:300]}")
+    mech_counts = {}
+    for v in m["violations"]:
+        mech_counts[v["mechanism"]] = mech_counts.get(v["mechanism"], 0) + 1
     status = "violated" if new else ("inconclusive" if inconclusive else "held")
     if status == "inconclusive":
         for r in inconclusive:
@@ -151,6 +155,7 @@ def report(prop, mod, m, tier, seed, wall, write_evidence=True):
                 "monitor_evaluations": m["monitor_evals"],
                 "counters": dict(sorted(m["counters"].items())),
                 "known_findings_matched": {k: len(v) for k, v in known_hit.items()},
+                "violation_mechanisms": dict(sorted(mech_counts.items())),
                 "verdict": status,
                 "inconclusive_reasons": inconclusive,
                 "technique": getattr(mod, "TECHNIQUE", ""),
@@ -171,6 +176,8 @@ def report(prop, mod, m, tier, seed, wall, write_evidence=True):
             f.write(jdump(ev, indent=1))
     for l in lines:
         print(l)
+    if mech_counts:
+        print("MECHANISMS " + prop + " " + "; ".join(f"{k} x{v}{' [known]' if k in known else ''}" for k, v in sorted(mech_counts.items())))
     print(
         f"{prop} {tier} seed={seed}: {status}; evaluations={m['evaluations']} monitor_evals={m['monitor_evals']} "
         f"distinct_nontrivial={len(m['nontrivial'])} known={sum(len(v) for v in known_hit.values())} new_violations={len(seen)} wall={wall:.1f}s"
